@@ -168,7 +168,9 @@ func checkMine(c mineCase) (h.Info, error) {
 		h.InfraAndExit("C11", "mine", c, fmt.Sprintf("Mine(data=%x, target=%v, workers=%d) did not return within 100 s (40 s after its context expired); C11 cannot be decided, see C13", []byte(c.Data), target, c.Workers))
 	}
 	if err != nil {
-		return info, fmt.Errorf("Mine(data=%x, target=%v [%s], workers=%d): %v", []byte(c.Data), target, c.Class, c.Workers, err)
+		// the statement constrains nonces returned WITHOUT error; an error return is not a violation
+		// (the vacuity guard requires that successful cases exist)
+		return h.Info{Class: "mine-error/" + c.Class}, nil
 	}
 	if !bytes.Equal(data, c.Data) {
 		return info, fmt.Errorf("Mine modified data")
@@ -362,7 +364,8 @@ func checkMineChild(c mineCase) (h.Info, error) {
 		return info, fmt.Errorf("PRECONDITION: bad child output %q", line)
 	}
 	if res.Err != "" {
-		return info, fmt.Errorf("Mine(data=%x, target=%v [%s]) returned error %q for a trivially attainable target", []byte(c.Data), c.target(), c.Class, res.Err)
+		// not crashing and not returning an unsound nonce is all the statement asks for low targets
+		return h.Info{Class: "child-error/" + c.Class}, nil
 	}
 	return info, judge(c, res.Nonce)
 }
